@@ -21,22 +21,30 @@
     - for the order the code had before fix 2550a01, vacate - count - write, the first fails: a
       single input with a panicking destructor reaches a state with a vacant slot and an
       unwritten cell.
+    A fourth theorem is about the slot map's [remove] alone (every collection uses it): [Pin::set]
+    destroys the future and marks the slot vacant in one step, vacant even if the destructor
+    panics ([MVacate]); written instead as "destroy in place, then overwrite" ([MDestroy] then
+    [MMark]) a panicking destructor leaves a destroyed future in an occupied slot, which a stale
+    waker then gets polled again.  With [MVacate] "destroyed => vacant" holds in every reachable
+    state; with the split it fails after one panic.
     The generated lemma [JoinOrderInst.join_order_ok] says the order read from the source
     (join_all.rs, try_join_all.rs, slot_map.rs) satisfies both premises. *)
 From FB Require Import Base.
 
-Inductive mstep := MWrite | MVacate | MCount.
+Inductive mstep := MWrite | MVacate | MCount | MDestroy | MMark.
 Scheme Equality for mstep.
 
-Record jst := { occ : nat -> bool; wr : nat -> bool; cnt : nat }.
+Record jst := { occ : nat -> bool; wr : nat -> bool; cnt : nat; dst : nat -> bool }.
 
 Definition fset (f : nat -> bool) (i : nat) (v : bool) : nat -> bool := fun j => if Nat.eqb j i then v else f j.
 
 Definition do_m (i : nat) (m : mstep) (s : jst) : jst :=
   match m with
-  | MWrite => {| occ := occ s; wr := fset (wr s) i true; cnt := cnt s |}
-  | MVacate => {| occ := fset (occ s) i false; wr := wr s; cnt := cnt s |}
-  | MCount => {| occ := occ s; wr := wr s; cnt := pred (cnt s) |}
+  | MWrite => {| occ := occ s; wr := fset (wr s) i true; cnt := cnt s; dst := dst s |}
+  | MVacate => {| occ := fset (occ s) i false; wr := wr s; cnt := cnt s; dst := fset (dst s) i true |}
+  | MCount => {| occ := occ s; wr := wr s; cnt := pred (cnt s); dst := dst s |}
+  | MDestroy => {| occ := occ s; wr := wr s; cnt := cnt s; dst := fset (dst s) i true |}
+  | MMark => {| occ := fset (occ s) i false; wr := wr s; cnt := cnt s; dst := dst s |}
   end.
 
 (** the handler for input [i]; [panics]: its destructor panics *)
@@ -46,12 +54,12 @@ Fixpoint handle (i : nat) (panics : bool) (ms : list mstep) (s : jst) : jst :=
   | m :: rest =>
       let s' := do_m i m s in
       match m with
-      | MVacate => if panics then s' else handle i panics rest s'
+      | MVacate | MDestroy => if panics then s' else handle i panics rest s'
       | _ => handle i panics rest s'
       end
   end.
 
-Definition init (n : nat) : jst := {| occ := fun i => Nat.ltb i n; wr := fun _ => false; cnt := n |}.
+Definition init (n : nat) : jst := {| occ := fun i => Nat.ltb i n; wr := fun _ => false; cnt := n; dst := fun _ => false |}.
 
 (** reachable: inputs complete one after the other, each at most once (a completed input's slot is
     vacant, so it is never handled again), each with or without a panicking destructor *)
@@ -76,27 +84,47 @@ Definition before (a b : mstep) (ms : list mstep) : bool :=
   | _, _ => false
   end.
 
-Definition once (m : mstep) (ms : list mstep) : bool := Nat.eqb (length (filter (mstep_beq m) ms)) 1.
+Definition no_split (ms : list mstep) : bool :=
+  forallb (fun m => match m with MDestroy | MMark => false | _ => true end) ms.
 
-(** the orders a generated lemma has to exhibit *)
+Fixpoint ms_beq (a b : list mstep) : bool :=
+  match a, b with
+  | [], [] => true
+  | x :: a', y :: b' => mstep_beq x y && ms_beq a' b'
+  | _, _ => false
+  end.
+
+Lemma ms_beq_eq a b : ms_beq a b = true -> a = b.
+Proof.
+  revert b. induction a as [|x a IH]; intros [|y b] H; simpl in H; try discriminate; auto.
+  apply andb_prop in H as [H1 H2]. f_equal; [destruct x, y; simpl in H1; congruence|auto].
+Qed.
+
+(** the orders a generated lemma has to exhibit: the output is stored first, each step happens
+    once, the future is destroyed by the panic-safe [MVacate] *)
 Definition safe_order (ms : list mstep) : bool :=
-  before MWrite MVacate ms && before MWrite MCount ms && once MWrite ms && once MVacate ms && once MCount ms.
+  ms_beq ms [MWrite; MVacate; MCount] || ms_beq ms [MWrite; MCount; MVacate].
+
+Lemma safe_orders ms :
+  safe_order ms = true -> ms = [MWrite; MVacate; MCount] \/ ms = [MWrite; MCount; MVacate].
+Proof. unfold safe_order. intros H. apply orb_prop in H as [H|H]; apply ms_beq_eq in H; auto. Qed.
 
 Lemma fset_same f i v : fset f i v i = v. Proof. unfold fset. rewrite Nat.eqb_refl. reflexivity. Qed.
 Lemma fset_other f i v j : j <> i -> fset f i v j = f j.
 Proof. unfold fset. intros H. destruct (Nat.eqb_spec j i); congruence. Qed.
 
 (** the handler never touches another input's slot or cell, never un-writes, never re-occupies *)
-Lemma handle_other i p ms s j : j <> i -> occ (handle i p ms s) j = occ s j /\ wr (handle i p ms s) j = wr s j.
+Lemma handle_other i p ms s j :
+  j <> i -> occ (handle i p ms s) j = occ s j /\ wr (handle i p ms s) j = wr s j /\ dst (handle i p ms s) j = dst s j.
 Proof.
   intros Hne. revert s. induction ms as [|m rest IH]; intros s; cbn [handle]; auto.
-  assert (Hd : occ (do_m i m s) j = occ s j /\ wr (do_m i m s) j = wr s j).
+  assert (Hd : occ (do_m i m s) j = occ s j /\ wr (do_m i m s) j = wr s j /\ dst (do_m i m s) j = dst s j).
   { destruct m; simpl; rewrite ?fset_other by auto; auto. }
-  destruct Hd as [D1 D2].
-  destruct m.
-  - destruct (IH (do_m i MWrite s)) as [A B]. rewrite A, B. auto.
-  - destruct p; [auto|]. destruct (IH (do_m i MVacate s)) as [A B]. rewrite A, B. auto.
-  - destruct (IH (do_m i MCount s)) as [A B]. rewrite A, B. auto.
+  destruct Hd as (D1 & D2 & D3).
+  assert (Hgo : occ (handle i p rest (do_m i m s)) j = occ s j /\ wr (handle i p rest (do_m i m s)) j = wr s j
+                /\ dst (handle i p rest (do_m i m s)) j = dst s j).
+  { destruct (IH (do_m i m s)) as (A & B & C). rewrite A, B, C. auto. }
+  destruct m; auto; destruct p; auto.
 Qed.
 
 Lemma handle_wr_mono i p ms s j : wr s j = true -> wr (handle i p ms s) j = true.
@@ -104,17 +132,17 @@ Proof.
   revert s. induction ms as [|m rest IH]; intros s H; simpl; auto.
   assert (Hd : wr (do_m i m s) j = true).
   { destruct m; simpl; auto. unfold fset. destruct (Nat.eqb j i); auto. }
-  destruct m; auto. destruct p; auto.
+  destruct m; auto; destruct p; auto.
 Qed.
 
 (** after the handler: if its slot is vacant and [MWrite] came before [MVacate], its cell is written *)
 Lemma handle_self_ds i p ms s :
-  before MWrite MVacate ms = true -> occ s i = true ->
+  no_split ms = true -> before MWrite MVacate ms = true -> occ s i = true ->
   occ (handle i p ms s) i = false -> wr (handle i p ms s) i = true.
 Proof.
-  unfold before. revert s. induction ms as [|m rest IH]; intros s Hb Ho Hv; simpl in *.
+  unfold before. revert s. induction ms as [|m rest IH]; intros s Hns Hb Ho Hv; simpl in *.
   - congruence.
-  - destruct m; simpl in *.
+  - destruct m; simpl in *; try discriminate.
     + (* write first: written from here on *)
       apply handle_wr_mono. simpl. apply fset_same.
     + (* vacate first: impossible under the premise *)
@@ -126,13 +154,13 @@ Proof.
 Qed.
 
 Theorem write_before_vacate_is_drop_safe n ms s :
-  before MWrite MVacate ms = true -> reach n ms s -> DS n s.
+  no_split ms = true -> before MWrite MVacate ms = true -> reach n ms s -> DS n s.
 Proof.
-  intros Hb Hr. induction Hr as [|s i p Hr IH Hi Ho].
+  intros Hns Hb Hr. induction Hr as [|s i p Hr IH Hi Ho].
   - intros j Hj Hv. simpl in Hv. apply Nat.ltb_ge in Hv. lia.
   - intros j Hj Hv. destruct (Nat.eq_dec j i) as [->|Hne].
     + apply handle_self_ds; auto.
-    + destruct (handle_other i p ms s j Hne) as [A B]. rewrite A in Hv. rewrite B. apply IH; auto.
+    + destruct (handle_other i p ms s j Hne) as (A & B & _). rewrite A in Hv. rewrite B. apply IH; auto.
 Qed.
 
 (** *** the count: it is at least the number of inputs whose cell is not written, as long as
@@ -145,7 +173,7 @@ Proof. induction n as [|k IH]; intros H; simpl; auto. rewrite H, IH by (auto; in
 
 Lemma unwritten_write s i n :
   i < n -> wr s i = false ->
-  S (unwritten {| occ := occ s; wr := fset (wr s) i true; cnt := cnt s |} n) = unwritten s n.
+  S (unwritten {| occ := occ s; wr := fset (wr s) i true; cnt := cnt s; dst := dst s |} n) = unwritten s n.
 Proof.
   revert i. induction n as [|k IH]; intros i Hi Hw; [lia|]. simpl.
   destruct (Nat.eq_dec i k) as [->|Hne].
@@ -157,22 +185,6 @@ Lemma unwritten_zero s n : unwritten s n = 0 -> forall i, i < n -> wr s i = true
 Proof.
   induction n as [|k IH]; intros H i Hi; [lia|]. simpl in H.
   destruct (wr s k) eqn:E; [|simpl in H; lia]. destruct (Nat.eq_dec i k) as [->|]; auto. apply IH; auto; lia.
-Qed.
-
-(** [MWrite] first and every step exactly once leaves two orders *)
-Lemma count_steps ms :
-  length ms = length (filter (mstep_beq MWrite) ms) + length (filter (mstep_beq MVacate) ms)
-              + length (filter (mstep_beq MCount) ms).
-Proof. induction ms as [|m r IH]; simpl; auto. destruct m; simpl; lia. Qed.
-
-Lemma safe_orders ms :
-  safe_order ms = true -> ms = [MWrite; MVacate; MCount] \/ ms = [MWrite; MCount; MVacate].
-Proof.
-  intros H. pose proof H as H0. unfold safe_order, once in H.
-  apply andb_prop in H as [H Hc]. apply andb_prop in H as [H Hv]. apply andb_prop in H as [_ Hw].
-  apply Nat.eqb_eq in Hc, Hv, Hw. pose proof (count_steps ms) as Hl. rewrite Hc, Hv, Hw in Hl.
-  destruct ms as [|a [|b [|c [|d r]]]]; simpl in Hl; try lia.
-  destruct a, b, c; vm_compute in H0; try discriminate; auto.
 Qed.
 
 Lemma unwritten_init n m : unwritten (init m) n = n.
@@ -195,7 +207,7 @@ Proof.
   - destruct (handle_safe i p ms s Hms) as (A & B & C). split.
     + intros j Hj. rewrite A in Hj. rewrite B. unfold fset in *. destruct (Nat.eqb j i); [discriminate|auto].
     + pose proof (unwritten_write s i n Hi (K i Ho)) as Hu.
-      assert (Hext : unwritten (handle i p ms s) n = unwritten {| occ := occ s; wr := fset (wr s) i true; cnt := cnt s |} n).
+      assert (Hext : unwritten (handle i p ms s) n = unwritten {| occ := occ s; wr := fset (wr s) i true; cnt := cnt s; dst := dst s |} n).
       { apply unwritten_ext. intros j _. rewrite B. reflexivity. }
       rewrite Hext. lia.
 Qed.
@@ -222,6 +234,39 @@ Theorem fixed_order_is_safe n s :
   reach n fixed_order s -> DS n s /\ RS n s.
 Proof.
   intros H. split.
-  - eapply write_before_vacate_is_drop_safe; [|exact H]. reflexivity.
+  - eapply write_before_vacate_is_drop_safe; [| |exact H]; reflexivity.
   - eapply write_before_count_is_resolution_safe; [|exact H]. reflexivity.
+Qed.
+
+(** *** [remove] alone: destroyed => vacant, i.e. a destroyed future is never polled again *)
+Definition ND (n : nat) (s : jst) : Prop := forall i, i < n -> dst s i = true -> occ s i = false.
+
+Lemma handle_nd i p ms s :
+  no_split ms = true -> (dst s i = true -> occ s i = false) ->
+  dst (handle i p ms s) i = true -> occ (handle i p ms s) i = false.
+Proof.
+  revert s. induction ms as [|m rest IH]; intros s Hns H; cbn [handle]; auto.
+  simpl in Hns. apply andb_prop in Hns as [Hm Hns].
+  assert (Hd : dst (do_m i m s) i = true -> occ (do_m i m s) i = false).
+  { destruct m; simpl in *; try discriminate; auto. intros _. apply fset_same. }
+  destruct m; try discriminate; auto. destruct p; auto.
+Qed.
+
+Theorem set_keeps_destroyed_futures_out_of_their_slots n ms s :
+  no_split ms = true -> reach n ms s -> ND n s.
+Proof.
+  intros Hns Hr. induction Hr as [|s i p Hr IH Hi Ho].
+  - intros j _ H. discriminate.
+  - intros j Hj Hd. destruct (Nat.eq_dec j i) as [->|Hne].
+    + apply handle_nd; auto.
+    + destruct (handle_other i p ms s j Hne) as (A & _ & C). rewrite A. rewrite C in Hd. apply IH; auto.
+Qed.
+
+Definition split_order : list mstep := [MWrite; MDestroy; MMark; MCount].
+
+Theorem split_destroy_leaves_a_destroyed_future_in_its_slot :
+  exists s, reach 1 split_order s /\ dst s 0 = true /\ occ s 0 = true.
+Proof.
+  exists (handle 0 true split_order (init 1)). split; [|split; reflexivity].
+  apply r_handle; [apply r_init|lia|reflexivity].
 Qed.
